@@ -532,6 +532,8 @@ def c03_steps(tier, seed):
         native("alloc-watch-iterators", ["w_iter", "--instances", 9, "--rounds", 25 if q else 300, "--seed", seed + 32], timeout=900),
         native("channel-nested-in-handler", ["w_channel", "--mode", "signal", "--histories", 800 if q else 40000, "--seed", seed + 33, "--heap", 0], also=["C08"]),
         native("wake-on-full-descriptors", ["w_pipe", "--seed", seed + 34, "--cycles", 200], also=["C13"]),
+        # an armed shutdown must leave with _exit: running exit-time hooks inside the handler is not async-signal-safe
+        native("armed-shutdown-no-exit-hooks", ["w_flag", "--seed", seed + 35, "--scripts", 300 if q else 5000], also=["C15"]),
     ]
     return st
 
